@@ -1043,6 +1043,32 @@ def rule_raw_peeks(ctx) -> None:
     ctx.chk.floor("C06.raw-peek", 2)
 
 
+def rule_record_roundtrip(ctx) -> None:
+    """C06.record-roundtrip: the self-contained AHAB records interpreted on model objects (E19): parse(export(x)) has the fields of x and
+    exports to the same bytes.  The header check of the parsers (`check_container_head(...).validate()`, decided by the wire rules) and the
+    diagnostic copy of the parsed header are leaves.  `key_identifier` of a blob is not part of the blob's wire form (it travels in the
+    signature block) and is not compared."""
+    from ..engines import roundtrip
+
+    def leaves(c: ast.Call, ev):
+        if isinstance(c.func, ast.Attribute) and c.func.attr == "validate" and not c.args and isinstance(c.func.value, ast.Call) and isinstance(c.func.value.func, ast.Attribute) \
+                and c.func.value.func.attr == "check_container_head":
+            return None
+        if norm(c.func) == "HeaderContainerData.parse":
+            return ordereval.Obj(_parsed_header=True)
+        return ordereval.NOT_MODELLED
+    kb = ctx.enum_model(ctx.cls("spsdk/ele/ele_constants.py", "KeyBlobEncryptionAlgorithm"))
+    if kb is None:
+        raise AnalysisError("C06.record-roundtrip: KeyBlobEncryptionAlgorithm does not fold to an enum model")
+    roundtrip.check_classes(ctx, "C06.record-roundtrip", "spsdk/image/ahab/ahab_signature.py",
+                            [("ContainerSignature", [{"signature_data": bytes(range(64))}, {"signature_data": bytes(range(100, 196))}, {"signature_data": bytes(range(7, 139))}], {"ignore": ("_parsed_header",)})], None, leaves, floor=1)
+    roundtrip.check_classes(ctx, "C06.record-roundtrip", "spsdk/image/ahab/ahab_blob.py",
+                            [("AhabBlob", [{"flags": 0x80, "size": 256, "mode": 0, "algorithm": kb.AES_CBC, "dek_keyblob": bytes(range(72)), "key_identifier": 0},
+                                           {"flags": 0x80, "size": 128, "mode": 1, "algorithm": kb.AES_CBC, "dek_keyblob": bytes(range(56)), "key_identifier": 0},
+                                           {"flags": 0x80, "size": 192, "mode": 2, "algorithm": kb.AES_CBC, "dek_keyblob": bytes(range(64)), "key_identifier": 0}],
+                              {"ignore": ("_parsed_header", "key_identifier"), "sweep": False})], None, leaves, floor=2)
+
+
 def run(ctx) -> None:
     ctx.chk.explain("C06: E1 wire symmetry of every AHAB container class (including the pre-parse header peeks), E2 bit provenance of container/image flags and metadata "
                     "(producer shifts vs getter offsets, both entry versions), verifier-width rule tying every range record to the struct item or flag field it names, "
@@ -1050,6 +1076,7 @@ def run(ctx) -> None:
                     "(offset assignment evaluated on presence x length models), revoke-mask decision on all 64 cases, SRK key-size tables, image offset assignment on finite models.")
     ctx.rule(rule_wire)
     ctx.rule(rule_raw_peeks)
+    ctx.rule(rule_record_roundtrip)
     ctx.rule(rule_flags)
     ctx.rule(rule_verify_width)
     ctx.rule(rule_range_helper)
